@@ -20,7 +20,7 @@ ASSUMPTIONS = ["the inner width is derived from the observed frame (line width m
                "is then rendered alone at that width",
                "structural minimum as in C01; below it nothing is asserted",
                "ProgressBar fills its width exactly only when a colour system is on and no_color is off (documented by its code path)"]
-REQUIRED = ["mon.panel", "mon.padding", "mon.align", "mon.constrain_styled", "mon.rule", "mon.bar", "mon.pbar",
+REQUIRED = ["mon.casts", "mon.panel", "mon.padding", "mon.align", "mon.constrain_styled", "mon.rule", "mon.bar", "mon.pbar",
             "mon.columns", "mon.tree"]
 MIN_NONTRIVIAL = {"quick": 3000, "thorough": 150000}
 
@@ -601,12 +601,70 @@ def wl_tree(ctx, rng, case_no):
                       len(nodes) >= 3, {"nodes": nodes, "width": W})
 
 
+def _strip_casts(spec):
+    """The same tree with every __rich__ wrapper replaced by what it casts to."""
+    if isinstance(spec, dict):
+        if spec.get("k") == "richcast":
+            return _strip_casts(spec["child"])
+        return {k: _strip_casts(v) for k, v in spec.items()}
+    if isinstance(spec, list):
+        return [_strip_casts(v) for v in spec]
+    return spec
+
+
+def wl_casts(ctx, rng, case_no):
+    """An object that is a renderable only through __rich__ stands for what it casts to, wherever it sits: a frame
+    around a tree with such objects renders, cell for cell, like the frame around the tree without the wrappers."""
+    inner = SP.gen_spec(rng, depth=rng.choice([0, 1, 2]), profile={"casts": False})
+    r = rng.random()
+    if r < 0.6:
+        inner = {"k": "richcast", "child": inner}
+    elif inner["k"] in ("panel", "padding", "align", "styled", "constrain") and inner["child"]["k"] != "richcast":
+        inner = dict(inner, child={"k": "richcast", "child": inner["child"]})
+    else:
+        inner = {"k": "richcast", "child": inner}
+    frame = rng.choice(["panel", "padding", "align", "none", "table", "tree", "columns", "group"])
+    if frame == "panel":
+        spec = {"k": "panel", "child": inner, "box": rng.choice(SP.BOX_NAMES), "title": None, "title_align": "center",
+                "expand": rng.random() < 0.6, "width": None, "padding": SP.rand_pad(rng), "safe_box": None, "style": "none"}
+    elif frame == "padding":
+        spec = {"k": "padding", "child": inner, "pad": SP.rand_pad(rng, small=False), "expand": rng.random() < 0.6}
+    elif frame == "align":
+        spec = {"k": "align", "child": inner, "align": rng.choice(["left", "center", "right"]), "pad": True, "width": None}
+    elif frame == "table":
+        spec = SP.gen_table_spec(rng, 1, {"casts": False}, ncols=2, nrows=1, cell_gen=lambda: inner)
+    elif frame == "tree":
+        spec = {"k": "tree", "root": {"label": inner, "expanded": True, "guide_style": None,
+                                      "children": [{"label": inner, "expanded": True, "children": [], "guide_style": None}]}}
+    elif frame == "columns":
+        spec = {"k": "columns", "items": [inner, inner], "equal": False, "expand": False, "column_first": False,
+                "right_to_left": False, "align": None, "padding": (0, 1), "title": None, "width": None}
+    elif frame == "group":
+        spec = {"k": "group", "children": [inner, inner], "fit": rng.random() < 0.5}
+    else:
+        spec = inner
+    plain = _strip_casts(spec)
+    m = SP.structural_min(plain)
+    for W in widths_for(rng, m):
+        console = consoles.layout_console(W)
+        ctx.count("mon.casts")
+        got = [(gtext(l), [v for _, v in l]) for l in grid(console, SP.build(spec))]
+        want = [(gtext(l), [v for _, v in l]) for l in grid(console, SP.build(plain))]
+        if got != want:
+            ctx.violation("object-cast-through-__rich__-renders-differently-inside:%s" % frame,
+                          {"spec": spec, "width": W, "lines": [g[0] for g in got][:30], "without_cast": [w_[0] for w_ in want][:30]})
+            break
+    ctx.case_done(("cast", json.dumps(spec, sort_keys=True, default=str, ensure_ascii=False)), frame != "none",
+                  {"spec": spec, "frame": frame})
+
+
 def workloads(tier):
     big = tier == "thorough"
     k = 25 if big else 1
     return [WL("panel", wl_panel, 2500 * k), WL("padding", wl_padding, 2000 * k), WL("align", wl_align, 2000 * k),
             WL("constrain_styled", wl_constrain_styled, 2000 * k), WL("rule", wl_rule, 3000 * k),
-            WL("bar", wl_bar, 3000 * k), WL("columns", wl_columns, 2500 * k), WL("tree", wl_tree, 2500 * k)]
+            WL("bar", wl_bar, 3000 * k), WL("columns", wl_columns, 2500 * k), WL("tree", wl_tree, 2500 * k),
+            WL("casts", wl_casts, 2500 * k)]
 
 
 LEVEL_TEXT = ("Renders real Panel / Padding / Align / Constrain / Styled around random children and compares the frame's "
